@@ -227,6 +227,8 @@ def describe(item):
     if item[0] == 'constraint':
         _, atoms, t = item
         return dict(family='constraint', program=[CONSTRAINT_ATOMS[a][0] for a in atoms] + [CTERMS[t][0]])
+    if item[0] == 'growth':
+        return dict(family='growth', inserts_per_glyph=item[1], late_pass=['none', 'insert', 'delete'][item[2]], second_substitution_pass=item[3], ijust_equals_ipos=item[4])
     if item[0] == 'manyrules':
         return dict(family='manyrules', rules_per_length=item[1], max_rule_length=item[2], long_first=item[3], substitutes=item[4])
     R = twopass_rules()
@@ -240,10 +242,33 @@ def build(item):
     if item[0] == 'constraint': return font_for_constraint(item[1], item[2])
     if item[0] == 'twopass': return font_for_twopass(item[1], item[2], item[3], item[4])
     if item[0] == 'manyrules': return font_for_manyrules(item[1], item[2], item[3], item[4])
+    if item[0] == 'growth': return font_for_growth(item[1], item[2], item[3], item[4])
     return font_for_twopass(item[1], item[2], 0, 0, item[3])
 
 
-ENUMS = dict(action=enum_action, constraint=enum_constraint, twopass=enum_twopass, manyrules=enum_manyrules)
+def enum_growth(tier):
+    """Segment growth at the 64-slots-per-character budget: a substitution rule inserting k slots per matched glyph, then a pass at/after iPos that
+    does nothing / inserts once more / deletes (the loader must refuse the last two)."""
+    for k in (1, 31, 62, 63, 64, 65, 100):
+        for late in (0, 1, 2):
+            for two in (0, 1):
+                for just in (0, 1):
+                    yield ('growth', k, late, two, just)
+
+
+def font_for_growth(k, late, two, just):
+    F = base_font(); ab = {2, 3}; anyg = {2, 3, 5, 6}
+    grow = Rule(0, [ab], A('INSERT', 'PUT_GLYPH', 0, 0, 'NEXT') * k + A('NEXT', 'RET_ZERO'))
+    latecode = [A('NEXT', 'RET_ZERO'), A('INSERT', 'PUT_GLYPH', 0, 0, 'NEXT', 'NEXT', 'RET_ZERO'), A('DELETE', 'NEXT', 'RET_ZERO')][late]
+    passes = [dict(maxloop=3, rules=[grow])]
+    if two: passes.append(dict(maxloop=3, rules=[Rule(0, [{5}], A('INSERT', 'PUT_GLYPH', 0, 1, 'NEXT', 'NEXT', 'RET_ZERO'))]))      # a second substitution pass that doubles the inserted glyphs
+    ipos = len(passes)
+    passes.append(dict(maxloop=2, rules=[Rule(0, [ab], latecode)]))        # only the original glyph: one more slot per character
+    F['silf'] = dict(version=3, passes=passes, classes=CLASSES, nlinear=NLINEAR, iSubst=0, iPos=ipos, iJust=ipos if just else len(passes), numUser=1, maxPre=1, maxPost=3)
+    return F
+
+
+ENUMS = dict(action=enum_action, constraint=enum_constraint, twopass=enum_twopass, manyrules=enum_manyrules, growth=enum_growth)
 
 
 def main():
